@@ -68,7 +68,7 @@ def _acc(rng):
     return rng.randint(0, M)
 
 def _candidate(rng):
-    fam = rng.choice(["noreversal", "reversal_small", "reversal_large", "zero_at_tick", "constant", "boundary", "early_reversal", "legacy", "invalid", "tiny", "long", "knife", "knife", "zero_disc", "first_tick"])
+    fam = rng.choice(["noreversal", "reversal_small", "reversal_large", "zero_at_tick", "constant", "boundary", "early_reversal", "legacy", "invalid", "tiny", "long", "knife", "knife", "zero_disc", "first_tick", "peak_misses_boundary"])
     s = lambda: rng.choice([1, -1])
     if fam == "invalid":
         return rng.choice([(0, rng.randint(-9, 9), rng.randint(-9, 9)), (rng.randint(1, 9), 0, 0), (-rng.randint(1, 9), -rng.randint(1, 10**6), rng.randint(-5, 5))]), fam
@@ -144,6 +144,21 @@ def _candidate(rng):
         acc = (acc + rng.choice([0, 0, 0, 1, -1])) % B
         sg = s()
         return (steps * rng.choice([1, 1, 1, -1]) if sg > 0 else steps, sg * (r0 + tq(a, 2)), sg * a, acc if sg > 0 else M - acc), fam
+    if fam == "peak_misses_boundary":
+        # a decelerating move whose accumulator total, at the tick where it turns, stops just short of a step boundary that the
+        # continuous parabola through the ticks would cross (the vertex lies between two ticks): the budget equal to that boundary is
+        # reached only after the reversal, by steps in the other direction
+        from fractions import Fraction as Fr
+        for _ in range(4000):
+            a = -rng.randint(2**27, M); r0 = rng.randint(-a, M); acc = rng.choice([0, 0, 0, rng.randint(0, -a // 16)])
+            kr = r0 // (-a); S_kr = acc + r0 * kr + a * kr * (kr + 1) // 2
+            re2 = 2 * r0 + a                                   # twice the effective rate
+            P = Fr(acc) + Fr(re2 * re2, 8 * (-a))              # peak of the continuous parabola
+            m = int(P // B)
+            if m >= 1 and S_kr < m * B <= P:
+                sg = s()
+                return (m, sg * (r0 + tq(a, 2)), sg * a, (acc if sg > 0 else M - acc) if acc else None), fam
+        return (1, 1, 0), "tiny"
     if fam == "long":
         rate = s() * rng.randint(1, 2000); return (rng.randint(1, 2000), rate, rng.choice([0, 0, 1, -1]) if abs(rate) > 500 else 0), fam
     return (1, 1, 0), fam
